@@ -39,23 +39,18 @@ impl RequestHandler<GotoDefinition> for GoToDefinitionHandler {
             .uri
             .to_file_path()
             .unwrap();
-        let pos = to_line_col(&params.text_document_position_params.position);
+        let pos = to_line_col(
+            tree,
+            &path,
+            &params.text_document_position_params.position,
+        );
         let def = defs
             .iter()
             .find(|(_, def)| def.try_get_usage_containing(tree, &path, pos).is_some())
             .or_else(|| defs.first());
         if let Some((_, def)) = def {
             if let Some(location) = &def.location {
-                let origin = def.try_get_usage_containing(
-                    tree,
-                    &params
-                        .text_document_position_params
-                        .text_document
-                        .uri
-                        .to_file_path()
-                        .unwrap(),
-                    to_line_col(&params.text_document_position_params.position),
-                );
+                let origin = def.try_get_usage_containing(tree, &path, pos);
                 let origin = origin.map(|dl| tree.code_map.look_up_span(dl.span));
 
                 let l = analysis.look_up(location.span);
@@ -85,16 +80,20 @@ impl RequestHandler<References> for FindReferencesHandler {
         let codegen = ctx.codegen().unwrap();
         let codegen = codegen.lock().unwrap();
         let analysis = codegen.analysis();
-        let defs = analysis.find_filter(
-            params
-                .text_document_position
-                .text_document
-                .uri
-                .to_file_path()
-                .unwrap(),
-            to_line_col(&params.text_document_position.position),
-            |ty| matches!(ty, DefinitionType::Symbol(_)),
+        let path = params
+            .text_document_position
+            .text_document
+            .uri
+            .to_file_path()
+            .unwrap();
+        let pos = to_line_col(
+            &analysis.tree(),
+            &path,
+            &params.text_document_position.position,
         );
+        let defs = analysis.find_filter(path, pos, |ty| {
+            matches!(ty, DefinitionType::Symbol(_))
+        });
 
         let locations = defs
             .into_iter()
